@@ -546,6 +546,11 @@ func main() {
 		fmt.Fprintln(os.Stderr, "c17: global watchdog expired")
 		os.Exit(3)
 	}()
+	// the "silent" logger of the code under test still prints error-level lines with stack traces on stdout; this driver
+	// writes nothing on stdout itself
+	if devnull, err := os.OpenFile(os.DevNull, os.O_WRONLY, 0); err == nil {
+		os.Stdout = devnull
+	}
 	r := hx.NewRng(hx.SeedFromEnv())
 	o := hx.NewOut(*out)
 	defer o.Close()
